@@ -10,7 +10,7 @@ from ..snapshot import AnalysisBroken
 UNITS = None
 EXPLANATION = (
     "R14.1 unit flow: values read from echs_idiff_t.d are milliseconds; they may reach alarm()/set_timeout()/a DURATION:PT%dS line only "
-    "through a division by 1000; units are inferred over the expression trees and local def-use chains. R14.2 writer/reader pairing: every "
+    "through a division by 1000; units are inferred over the expression trees and local def-use chains; an object that holds the millisecond count on the way is 64 bits wide. R14.2 writer/reader pairing: every "
     "emission of DURATION is either formatted by idiff_strf (the formatter paired with the reader's idiff_strp) or is a literal format whose "
     "value part is an ISO 8601 duration; DTSTART/DUE/COMPLETED values come from dt_strf_ical. R14.3 deadline path in the executor: both "
     "VTODO kinds reach set_timeout before the spawn, the overdue test dominates arming and refuses, the handler is installed before "
